@@ -171,6 +171,7 @@ def run_selftest(ctx):
         if naive_cost(r["tau"], dom) * V.tree_size(r["tau"]) > 4000000:
             continue
         r["pp"] = {"wlo": wlo, "whi": whi, "lo": max(wlo, -1), "hi": whi, "minsyms": 1, "nbs": 1, "ext": ext}
+        r["naive"] = True
         small.append(r)
     vs = [v for v in V.tlc_validate(ctx, "TraceSem", small, {"VERIF_PROP": "SELF"}, workers=8) if v["check"] == "SELF.scheduled_vs_naive"]
     nd = sum(1 for v in vs if v["v"] == "DISAGREE")
@@ -180,6 +181,26 @@ def run_selftest(ctx):
         if v["v"] == "DISAGREE":
             log("   ", v["id"], V.wit_str(v))
     expect("scheduled evaluator (definition binding, conjunct scheduling) agrees with the naive evaluator on anthem's tau* output", len(vs) >= 40 and nd == 0)
+    # MC_Sem: reference translation (Translations.tla) = reference semantics (MiniGringo.tla) on systematic and random rules; anthem = both
+    cases = [{"id": f"t{i}", "prog": p} for i, p in enumerate(C.TABLE_PROGRAMS)]
+    cases += V.tlc_generate(ctx, "sysrule", 150, 2, {"GEN_STRIDE": 13})
+    cases += V.tlc_generate(ctx, "sysnest", 80, 2, {"GEN_STRIDE": 97})
+    cases += V.tlc_generate(ctx, "program", 40, 2)
+    rrecs, seen = [], set()
+    for r in V.run_harness(ctx, "translate", cases, tag="-ref"):
+        if r["kind"] != "rule" or json.dumps(r["rule"], sort_keys=True) in seen:
+            continue
+        seen.add(json.dumps(r["rule"], sort_keys=True))
+        if V.add_params(ctx, r, len(rrecs), ["rule", "tau"], nvars=len(r["rule"]["vars"]), size=V.tree_size(r["rule"])) is None:
+            rrecs.append(r)
+    vs = V.tlc_validate(ctx, "TraceSem", rrecs, {"VERIF_PROP": "SELF"})
+    for chk in ("SELF.reference_translation_vs_reference_semantics", "SELF.anthem_vs_reference_translation"):
+        sel = [v for v in vs if v["check"] == chk]
+        bad = [v for v in sel if v["v"] == "DISAGREE"]
+        log(f"  {chk}: {len(sel)} rules, {sum(v['n'] for v in sel)} evaluations, {sum(v['ident'] for v in sel)} identical groundings, {len(bad)} disagreements")
+        for v in bad[:5]:
+            log("   ", v["id"], next((r["text"] for r in rrecs if r["id"] == v["id"]), ""), V.wit_str(v))
+        expect(chk.replace("SELF.", "").replace("_", " "), len(sel) >= 150 and not bad)
     ok = all(x for _, x in results)
     print(f"selftest: {sum(1 for _, x in results if x)}/{len(results)} expectations met")
     return 0 if ok else 1
